@@ -435,6 +435,10 @@ class EndToEnd:
                 log.append(('write', _n, value))
                 if self.fail:
                     raise self.fail.pop(0)
+                if _n in self.coerce:
+                    # the hardware takes another value than the one written (rounding, clamping): that is what comes back
+                    value = self.coerce.pop(_n)
+                    log.append(('write-returned', _n, value))
                 return value
 
             def rd(self, _n=name):
@@ -454,11 +458,13 @@ class EndToEnd:
             return gen_dt.to_py(rspec, rval)
         ns['echo'] = C.Command(dtbuild.build(aspec), result=dtbuild.build(rspec))(echo)
         ns['fail'] = None
+        ns['coerce'] = None
         cls = type('E2E', (C.Module,), ns)
         self.remote_cls = cls
         node = self.nodes.Node({'mod': {'cls': cls, 'description': 'e2e'}}).build()
         mod = node.secnode.modules['mod']
         mod.fail = []
+        mod.coerce = {}
         srv, port = self.serve(node)
         client = None
         pnode = psrv = pclient = None
@@ -520,10 +526,14 @@ class EndToEnd:
                 return False
             sdt = dtbuild.build(spec)
             cdt = pnames[name]['datatype']
-            for _ in range(3):
+            for attempt in range(3):
                 w = gen_dt.complete(spec, gen_dt.gen_valid(spec, rng, True), rng)
                 v = cdt.import_value(json.loads(json.dumps(w)))
                 n0 = len(log)
+                if attempt == 1:
+                    w_ret = gen_dt.complete(spec, gen_dt.gen_valid(spec, rng, True), rng)
+                    mod.coerce[name] = sdt(gen_dt.to_py(spec, w_ret))
+                    r.count(f'e2e_{suffix}coercing_writes')
                 try:
                     item = client.setParameter(modname, name, v)
                 except self.SECoPError as e:
@@ -539,6 +549,9 @@ class EndToEnd:
                 if not refdt.same_wire(spec, w, got):
                     r.violation(f'C12/e2e/{via}/driver-value-differs/{spec["type"]}', f'caller passed {json.dumps(w)[:100]}, driver got {json.dumps(got)[:100]}', dict(case, value=w))
                     return False
+                returned = [e for e in log[n0:] if e[0] == 'write-returned' and e[1] == name]
+                if returned:
+                    got = json.loads(json.dumps(sdt.export_value(returned[0][2])))      # what the driver returned
                 back = json.loads(json.dumps(cdt.export_value(item.value))) if item.readerror is None else repr(item.readerror)
                 if item.readerror is not None or not refdt.same_wire(spec, got, back):
                     r.violation(f'C12/e2e/{via}/cache-differs-from-driver/{spec["type"]}', f'driver returned {json.dumps(got)[:100]}, cache holds {str(back)[:100]}', dict(case, value=w))
